@@ -2,6 +2,8 @@ import StorageModel.C09.WfPres
 import StorageModel.C09.Errors
 import StorageModel.C09.Universe
 import StorageModel.Generated.C09Quirks
+import StorageModel.C09.NamingDriver
+import StorageModel.C09.NamingIrrelevant
 /-
   C09 — Integrity check: sound, complete, read-only in check mode, convergent in fix.
 
@@ -46,10 +48,12 @@ namespace StorageModel.Properties.C09
 open StorageModel StorageModel.C09
 
 /-- obligation on regenerated data (extract/c09quirks.go reads the source on every run): the three
-    code sites have the repaired shape this model follows -/
+    code sites — and the dangling-reference repair of fkIndex / fkConstraint, which clears the value at the symbol's
+    path (C09-nested-fk-repair) — have the repaired shape this model follows -/
 theorem code_shape_is_repaired :
     Generated.c09QuirksRecognised = true ∧ Generated.c09IterateLinksCreates = false ∧
-    Generated.c09EmptyUniqueIsNil = true ∧ Generated.c09LinkRemoveDeferred = true := by decide
+    Generated.c09EmptyUniqueIsNil = true ∧ Generated.c09LinkRemoveDeferred = true ∧
+    Generated.c09FkRepairAtPath = true := by decide
 
 /-! ## check-only mode -/
 
@@ -522,5 +526,288 @@ example :
           [ (things, [ ⟨a1, [("name", .str n1), ("owner", .str []), ("home", .str b1), ("req", .str b1)], [("roles", [])]⟩ ]),
             (owners, [ ⟨b1, [], [("things", [a1]), ("residents", [a1])]⟩ ]) ] } : StD).toSt).2.map (fun r => (r.msg, r.fixed))
       = [(.fkBackStale b1 a1 [], true)] := by decide
+
+/-! ## schemas with names, keys / paths and declaring stores (round 8)
+
+  In the schemas of `C09/Model.lean` one identifier `f` names a symbol, addresses its index bucket and
+  addresses its value inside the entity bucket.  The code keeps these apart: the index bucket and the report
+  texts use `symbol.GetName()`, every read of a value goes through `symbol.GetStore().GetEntityBucket` and the
+  symbol's PATH (`prefix ++ [key]`, `AddSymbolWithKey` / `AddFkSymbolWithKey`), the repair of a dangling
+  reference clears the value where it is stored (`entityBucket.GetPath(path[:len-1]...).Put(path[len-1], nil)`, repair
+  C09-nested-fk-repair; before it: `Put(path[0], nil)` and only when `len(path) == 1`), and the inverse test of a link
+  collection compares names and ENTITY TYPES.  `checkAllN G L fix` (C09/Naming.lean) is the five procedures
+  followed once more with a schema `G` that carries, per symbol, (store, name, path) and, per store, what it
+  DECLARES — on symbols of its own, of its parent or of any other store; root, plain child and extended child
+  stores come from the layering `L` — over the PHYSICAL database `NSt`: layered entity buckets addressed by
+  path, index buckets addressed by (store, name).
+
+  `named_run_is_flat_run` (C09/NamingSim.lean, a simulation proved loop by loop): for EVERY schema `G` with
+  `G.Ok` (per store a name denotes one symbol and different symbols live at different paths; the inverse test
+  by entity types agrees with the one by stores), every layering and every physical database with distinct ids per bucket, this run IS the run
+  of `checkAll G.flat fix` over the flat view `nview G L n` that reads every declared symbol at its path.  So
+  every theorem above holds for the family (`named_*`), with `inconsistenciesN` — the symmetric difference
+  computed with values read at PATHS and indexes found under NAMES — as the specification.  Two statements
+  are about the physical database itself and are proved on it: a check-only run returns it unchanged
+  (`named_check_readonly`), and a fix run writes entity buckets only at declared paths
+  (`named_fix_writes_declared_paths`) — what sits under a key no symbol is stored at, e.g. under a symbol's
+  NAME when name ≠ key, is what it was.  Symbols stored under a prefix (`len(path) > 1`) are covered like any
+  other: see `nested_nullable_fk_is_repaired` and, for the code before the repair, `old_nested_nullable_fk_not_repaired`. -/
+
+/-- **the run over names, keys / paths and declaring stores is the flat run over the view** -/
+theorem named_run_is_flat_run (G : NSchema) (L : Layering) (hG : G.Ok) (fix : Bool) (n : NSt)
+    (hk : n.KeysOk) :
+    nview G L (checkAllN G L fix n).1 = (checkAll G.flat fix (nview G L n)).1 ∧
+    (checkAllN G L fix n).2 = (checkAll G.flat fix (nview G L n)).2 :=
+  (sim_checkAll hG fix n hk).2
+
+/-- the same for any selection / order of the schema's stores (one store in a transaction of its own, the
+    reverse order inside one transaction) -/
+theorem named_stores_run_is_flat_run (G : NSchema) (L : Layering) (hG : G.Ok) (fix : Bool)
+    (sds : List NStoreDef) (hs : ∀ sd ∈ sds, sd ∈ G.stores) (n : NSt) (hk : n.KeysOk) :
+    nview G L (checkStoresN G L fix sds n).1 =
+      (seqAll ((sds.map NStoreDef.flat).map (StoreDef.check G.flat fix)) (nview G L n)).1 ∧
+    (checkStoresN G L fix sds n).2 =
+      (seqAll ((sds.map NStoreDef.flat).map (StoreDef.check G.flat fix)) (nview G L n)).2 :=
+  (sim_stores hG fix sds hs n hk).2
+
+/-- **read-only, physically.** A check-only run returns the physical database it was given — every key of
+    every bucket, also those no symbol of the schema names.  Every schema, every layering, every database;
+    no hypothesis. -/
+theorem named_check_readonly (G : NSchema) (L : Layering) (n : NSt) : (checkAllN G L false n).1 = n :=
+  checkAllN_false G L n
+
+theorem named_check_reports_unfixed (G : NSchema) (L : Layering) (hG : G.Ok) (n : NSt) (hk : n.KeysOk) :
+    ∀ r ∈ (checkAllN G L false n).2, r.fixed = false := by
+  rw [(named_run_is_flat_run G L hG false n hk).2]
+  exact check_reports_unfixed _ _
+
+/-- **complete**, for every schema of the family -/
+theorem named_check_complete (G : NSchema) (L : Layering) (hG : G.Ok) (n : NSt) (hwf : n.WF) :
+    ∀ d ∈ inconsistenciesN G L n, ∃ r ∈ (checkAllN G L false n).2, r.about = d := by
+  rw [(named_run_is_flat_run G L hG false n hwf.keysOk).2]
+  exact check_complete _ _ (nview_wf G L hwf)
+
+/-- **sound, report by report** -/
+theorem named_check_sound_reports (G : NSchema) (L : Layering) (hG : G.Ok) (n : NSt) (hwf : n.WF) :
+    ∀ r ∈ (checkAllN G L false n).2, r.about ∈ inconsistenciesN G L n := by
+  rw [(named_run_is_flat_run G L hG false n hwf.keysOk).2]
+  exact check_sound_reports _ _ (nview_wf G L hwf)
+
+/-- **sound**: a database whose indexes (found under the symbols' NAMES) mirror the values stored at the symbols'
+    PATHS in the buckets of the symbols' STORES yields no report -/
+theorem named_check_sound (G : NSchema) (L : Layering) (hG : G.Ok) (n : NSt) (hwf : n.WF)
+    (hinv : InvN G L n) : (checkAllN G L false n).2 = [] := by
+  rw [(named_run_is_flat_run G L hG false n hwf.keysOk).2]
+  exact check_sound _ _ (nview_wf G L hwf) hinv
+
+theorem named_check_clean_iff (G : NSchema) (L : Layering) (hG : G.Ok) (n : NSt) (hwf : n.WF) :
+    (checkAllN G L false n).2 = [] ↔ InvN G L n := by
+  rw [(named_run_is_flat_run G L hG false n hwf.keysOk).2]
+  exact check_clean_iff _ _ (nview_wf G L hwf)
+
+/-- **convergent**: after ONE fix run an immediate re-check reports nothing but genuine data conflicts -/
+theorem named_fix_converges (G : NSchema) (L : Layering) (hG : G.Ok) (hS : SchemaOk G.flat) (n : NSt)
+    (hwf : n.WF) : ∀ r ∈ (checkAllN G L false (checkAllN G L true n).1).2, Unfixable G.flat r := by
+  have h1 := sim_checkAll (L := L) hG true n hwf.keysOk
+  rw [(named_run_is_flat_run G L hG false _ h1.1).2, h1.2.1]
+  exact fix_converges _ hS _ (nview_wf G L hwf)
+
+/-- **the indexes mirror the entities again, modulo genuine conflicts** -/
+theorem named_fix_mirrors (G : NSchema) (L : Layering) (hG : G.Ok) (hS : SchemaOk G.flat) (n : NSt)
+    (hwf : n.WF) : ∀ d ∈ inconsistenciesN G L (checkAllN G L true n).1, ConflictKind G.flat d := by
+  have h1 := sim_checkAll (L := L) hG true n hwf.keysOk
+  unfold inconsistenciesN
+  rw [h1.2.1]
+  exact fun d hd => (fix_mirrors _ hS _ (nview_wf G L hwf) d hd).1
+
+/-- **idempotent** on everything the schema's symbols and indexes read -/
+theorem named_fix_idempotent (G : NSchema) (L : Layering) (hG : G.Ok) (hS : SchemaOk G.flat) (n : NSt)
+    (hwf : n.WF) : nview G L (checkAllN G L true (checkAllN G L true n).1).1 = nview G L (checkAllN G L true n).1 := by
+  have h1 := sim_checkAll (L := L) hG true n hwf.keysOk
+  rw [(named_run_is_flat_run G L hG true _ h1.1).1, h1.2.1]
+  exact fix_idempotent _ hS _ (nview_wf G L hwf)
+
+/-- a fix run on a consistent database reports nothing and leaves every declared symbol and index alone -/
+theorem named_fix_noop_on_consistent (G : NSchema) (L : Layering) (hG : G.Ok) (n : NSt) (hwf : n.WF)
+    (hinv : InvN G L n) : nview G L (checkAllN G L true n).1 = nview G L n := by
+  rw [(named_run_is_flat_run G L hG true n hwf.keysOk).1]
+  exact fix_noop_on_consistent _ _ (nview_wf G L hwf) hinv
+
+/-- **a run writes entity buckets only at the PATHS of declared symbols** (both modes; every schema and
+    layering, no hypothesis on the schema): the ids of every entities bucket, the membership of the child
+    stores, and every value / list under a path that is not the path of a declared symbol of the store the
+    bucket belongs to are what they were.  In particular nothing is written under a symbol's NAME when the
+    name is not a key. -/
+theorem named_fix_writes_declared_paths (G : NSchema) (L : Layering) (fix : Bool) (n : NSt) (hk : n.KeysOk) :
+    FrameN G n (checkAllN G L fix n).1 := checkAllN_frame fix n hk
+
+/-- **a single fix run repairs everything repairable**, for every schema of the family: what the symbols and
+    indexes read after the run is well-formed, an immediate re-check reports only genuine conflicts, every
+    remaining discrepancy is of a conflict kind, and the rest of the physical database is untouched -/
+theorem named_fix_run_repairs (G : NSchema) (L : Layering) (hG : G.Ok) (hS : SchemaOk G.flat) (n : NSt)
+    (hwf : n.WF) :
+    (nview G L (checkAllN G L true n).1).WF ∧
+    (∀ r ∈ (checkAllN G L false (checkAllN G L true n).1).2, Unfixable G.flat r) ∧
+    (∀ d ∈ inconsistenciesN G L (checkAllN G L true n).1, ConflictKind G.flat d) ∧
+    FrameN G n (checkAllN G L true n).1 := by
+  refine ⟨?_, named_fix_converges G L hG hS n hwf, named_fix_mirrors G L hG hS n hwf,
+    named_fix_writes_declared_paths G L true n hwf.keysOk⟩
+  rw [(named_run_is_flat_run G L hG true n hwf.keysOk).1]
+  exact fix_preserves_wf _ hS _ (nview_wf G L hwf)
+
+/-! ### non-vacuity: a schema with name ≠ key, name of one symbol = key of another, child-declared fks and links -/
+
+def symName : NSym := ⟨things, "name", ["alias"]⟩        -- stored under the key that is the NAME of the next symbol
+def symAlias : NSym := ⟨things, "alias", ["name"]⟩       -- … and vice versa
+def symBoss : NSym := ⟨thingsX, "boss", ["bossId"]⟩      -- name ≠ key; owned and declared by the EXTENDED CHILD store
+def symStaff : NSym := ⟨owners, "staff", ["staff"]⟩
+def symDep : NSym := ⟨thingsP, "dep", ["sub", "depK"]⟩   -- NON-nullable fk constraint of the PLAIN CHILD, under a prefix
+def symGroups : NSym := ⟨thingsP, "groups", ["groups"]⟩  -- link collection declared by the plain child
+def symMembers : NSym := ⟨owners, "members", ["members"]⟩
+
+def demoG : NSchema :=
+  { stores :=
+      [ { name := things, links := [], constraints := [.unique symName false, .unique symAlias true] },
+        { name := thingsX, links := [], constraints := [.fkIndex symBoss true symStaff] },
+        { name := thingsP, links := [⟨symGroups, symMembers⟩], constraints := [.fkCons symDep false owners] },
+        { name := owners, links := [⟨symMembers, symGroups⟩], constraints := [] } ]
+    etype := ND.etypeOf }
+
+example : demoG.Ok := by decide
+example : SchemaOk demoG.flat := by decide
+
+def x9 : Bytes := [120, 57]
+def b9 : Bytes := [98, 57]
+
+/-- a1: parent-only; a2: extension data (boss b1, stored under "bossId") and plain-child data (dep b1 under
+    sub/depK, linked to b1).  Besides, a2's extension bucket holds a key "boss" — the symbol's NAME, which no
+    symbol is stored at. -/
+def demoGood : ND.NStD :=
+  { ents :=
+      [ (things, [ ⟨a1, [(["alias"], .str n1), (["name"], .str x1)], []⟩,
+                   ⟨a2, [(["alias"], .str n2)], []⟩ ]),
+        (thingsX, [ ⟨a2, [(["bossId"], .str b1), (["boss"], .str x9)], []⟩ ]),
+        (thingsP, [ ⟨a2, [(["sub", "depK"], .str b1)], [(["groups"], [b1])]⟩ ]),
+        (owners, [ ⟨b1, [], [(["staff"], [a2]), (["members"], [a2])]⟩ ]) ]
+    uniq := [ ((things, "name"), [(n1, a1), (n2, a2)]), ((things, "alias"), [(x1, a1)]) ]
+    setx := [] }
+
+example : InvN demoG uniLayering (demoGood.toNSt uniLayering) := by decide
+example : (checkAllN demoG uniLayering false (demoGood.toNSt uniLayering)).2 = [] := by decide
+
+/-- a2's boss now names an owner that does not exist, and the index entry of a2's name is filed under the
+    symbol alias' bucket instead -/
+def demoBad : ND.NStD :=
+  { demoGood with
+    ents :=
+      [ (things, [ ⟨a1, [(["alias"], .str n1), (["name"], .str x1)], []⟩,
+                   ⟨a2, [(["alias"], .str n2)], []⟩ ]),
+        (thingsX, [ ⟨a2, [(["bossId"], .str b9), (["boss"], .str x9)], []⟩ ]),
+        (thingsP, [ ⟨a2, [(["sub", "depK"], .str b1)], [(["groups"], [b1])]⟩ ]),
+        (owners, [ ⟨b1, [], [(["staff"], [a2]), (["members"], [a2])]⟩ ]) ]
+    uniq := [ ((things, "name"), [(n1, a1)]), ((things, "alias"), [(x1, a1), (n2, a2)]) ] }
+
+/-- the reports name the symbols by NAME; the repair nulls the reference under its KEY "bossId" in the extension
+    bucket, leaves the key "boss" alone, and the re-check is clean -/
+example :
+    (checkAllN demoG uniLayering true (demoBad.toNSt uniLayering)).2.map (fun r => (r.store, r.field, r.msg, r.fixed)) =
+      [ (things, "name", .uqMissing n2 a2, true), (things, "alias", .uqStale n2 a2 [], true),
+        (thingsX, "boss", .fkBackStale b1 a2 b9, true), (thingsX, "boss", .fkDangling a2 b9, true) ] ∧
+    ((checkAllN demoG uniLayering true (demoBad.toNSt uniLayering)).1.entityBucket uniLayering thingsX a2).map
+        (fun e => (e.fields ["bossId"], e.fields ["boss"])) = some (.nil, .str x9) ∧
+    (checkAllN demoG uniLayering false (checkAllN demoG uniLayering true (demoBad.toNSt uniLayering)).1).2 = [] := by
+  decide
+
+/-- the defect class of the seeded change C09-17 — the repair addressed by the symbol's NAME: nulling the key
+    "boss" leaves the reference where it is, the symbol still evaluates to the missing owner -/
+example :
+    ((demoBad.toNSt uniLayering).modEnt uniLayering thingsX a2 fun e => e.setField ["boss"] .nil).evalT uniLayering symBoss a2
+      = .str b9 := by decide
+
+/-! ### the names are irrelevant
+
+  Rename every symbol by an injective `ρ` (`G.ren ρ`: stores, paths, nullability, declaring stores untouched)
+  and file every index bucket under the new name (`RenRel ρ n n'`: the same entities buckets,
+  `n'.uniq st (ρ f) = n.uniq st f`, likewise the set indexes).  Both runs then make the same decisions: the
+  reports are the same up to the label, the entities buckets are EQUAL afterwards (the same keys were read and
+  written), and the index buckets are equal under the new names.  The names enter the checker only through
+  `getIndexPath` and the report texts; everything else is addressed by store and path
+  (C09/NamingIrrelevant.lean, a second simulation, loop by loop).  No hypothesis on the schema or the database. -/
+theorem naming_irrelevant (ρ : Name → Name) (hρ : Function.Injective ρ) (G : NSchema) (L : Layering) (fix : Bool)
+    (n n' : NSt) (h : RenRel ρ n n') :
+    RenRel ρ (checkAllN G L fix n).1 (checkAllN (G.ren ρ) L fix n').1 ∧
+    (checkAllN (G.ren ρ) L fix n').2 = (checkAllN G L fix n).2.map (Report.ren ρ) :=
+  simr_checkAll hρ G fix n n' h
+
+/-- rename the symbol `boss` to `chief` (and back): an injective renaming -/
+def swapBoss (s : Name) : Name := if s = "boss" then "chief" else if s = "chief" then "boss" else s
+
+theorem swapBoss_invol (s : Name) : swapBoss (swapBoss s) = s := by
+  unfold swapBoss
+  by_cases h1 : s = "boss"
+  · subst h1; decide
+  · by_cases h2 : s = "chief"
+    · subst h2; decide
+    · simp [h1, h2]
+
+example : Function.Injective swapBoss := by
+  intro a b h
+  have := congrArg swapBoss h
+  rwa [swapBoss_invol, swapBoss_invol] at this
+
+/-- on the corrupted database above: the renamed schema reports the same four findings, the fk ones under the
+    label `chief`, and leaves the same extension bucket -/
+example :
+    (checkAllN (demoG.ren swapBoss) uniLayering true (demoBad.toNSt uniLayering)).2.map (fun r => (r.store, r.field, r.msg, r.fixed)) =
+      [ (things, "name", .uqMissing n2 a2, true), (things, "alias", .uqStale n2 a2 [], true),
+        (thingsX, "chief", .fkBackStale b1 a2 b9, true), (thingsX, "chief", .fkDangling a2 b9, true) ] ∧
+    ((checkAllN (demoG.ren swapBoss) uniLayering true (demoBad.toNSt uniLayering)).1.entityBucket uniLayering thingsX a2).map
+        (fun e => (e.fields ["bossId"], e.fields ["boss"])) = some (.nil, .str x9) := by decide
+
+/-! ### the finding of round 8, repaired: a dangling reference in a NULLABLE foreign key stored under a prefix
+
+  Until the repair C09-nested-fk-repair the code had `tryFix := index.nullable && fix && len(index.symbol.GetPath()) == 1`
+  and `entityBucket.Put([]byte(index.symbol.GetPath()[0]), nil)`: for a symbol declared with a prefix
+  (`AddFkSymbolWithKey(name, key, store, "sub")`, path `["sub", key]`) the repair was not attempted, every run reported
+  the reference `fixed = false` and the re-check was never clean, although nothing conflicts.  Now the value is cleared
+  where it is stored (`fkDanglingStepN`); the extractor `c09quirks` records which variant the source has
+  (`Generated.c09FkRepairAtPath`, obligation `code_shape_is_repaired`), and the `named_*` theorems above need no
+  condition on the paths any more. -/
+
+def symBossNested : NSym := ⟨thingsX, "boss", ["sub", "bossId"]⟩
+
+def nestedG : NSchema :=
+  { stores :=
+      [ { name := things, links := [], constraints := [] },
+        { name := thingsX, links := [], constraints := [.fkIndex symBossNested true symStaff] },
+        { name := owners, links := [], constraints := [] } ]
+    etype := ND.etypeOf }
+
+def nestedBad : ND.NStD :=
+  { ents :=
+      [ (things, [ ⟨a2, [], []⟩ ]),
+        (thingsX, [ ⟨a2, [(["sub", "bossId"], .str b9)], []⟩ ]),
+        (owners, [ ⟨b1, [], []⟩ ]) ]
+    uniq := []
+    setx := [] }
+
+/-- the former counterexample as a positive instance: one fix run reports the dangling reference as fixed, clears
+    the value under sub/bossId, and the re-check is clean -/
+theorem nested_nullable_fk_is_repaired :
+    nestedG.Ok ∧ SchemaOk nestedG.flat ∧
+    (checkAllN nestedG uniLayering true (nestedBad.toNSt uniLayering)).2 = [⟨thingsX, "boss", .fkDangling a2 b9, true⟩] ∧
+    ((checkAllN nestedG uniLayering true (nestedBad.toNSt uniLayering)).1.entityBucket uniLayering thingsX a2).map
+        (fun e => e.fields ["sub", "bossId"]) = some .nil ∧
+    (checkAllN nestedG uniLayering false (checkAllN nestedG uniLayering true (nestedBad.toNSt uniLayering)).1).2 = [] := by
+  decide
+
+/-- the code BEFORE the repair (`fkDanglingStepNOld`): on the same database the step reports the reference as NOT
+    fixed and leaves it where it is — and the report is not an unfixable conflict, so the spec's convergence clause fails -/
+theorem old_nested_nullable_fk_not_repaired :
+    (fkDanglingStepNOld uniLayering symBossNested true true (nestedBad.toNSt uniLayering) a2 b9).2 =
+      [⟨thingsX, "boss", .fkDangling a2 b9, false⟩] ∧
+    (fkDanglingStepNOld uniLayering symBossNested true true (nestedBad.toNSt uniLayering) a2 b9).1.evalT uniLayering symBossNested a2
+      = .str b9 ∧
+    ¬ Unfixable nestedG.flat ⟨thingsX, "boss", .fkDangling a2 b9, false⟩ := by decide
 
 end StorageModel.Properties.C09
